@@ -1,6 +1,8 @@
 //! qh: correspondence / oracle harness driving the real qmc crate.
+mod c08;
 mod c16;
 mod coqfmt;
+mod model;
 mod tape;
 
 use std::io::Write;
@@ -27,7 +29,7 @@ pub fn write_shards(
         let path = format!("{}/{}.v", out, name);
         let mut f = std::io::BufWriter::new(std::fs::File::create(&path).unwrap());
         writeln!(f, "From Coq Require Import List QArith ZArith NArith Bool.").unwrap();
-        writeln!(f, "From QmcV Require Import Model.Prog Model.Sse Model.Ham Check.{}.", module).unwrap();
+        writeln!(f, "From QmcV Require Import Model.Prog Model.Sse Model.Ham Check.Common Check.Table Check.{}.", module).unwrap();
         writeln!(f, "Import ListNotations.").unwrap();
         writeln!(f, "Definition base : N := {}%N.", k * per_shard.max(1)).unwrap();
         writeln!(f, "Definition cases : list {}.case := [", module).unwrap();
@@ -78,6 +80,8 @@ fn main() {
     std::panic::set_hook(Box::new(|_| {}));
     let summary = match argv[1].as_str() {
         "c16" => c16::run(&args),
+        "c08" => c08::run(&args),
+        "c08debug" => c08::debug(&args),
         other => {
             eprintln!("unknown command {}", other);
             std::process::exit(2);
